@@ -1,6 +1,6 @@
 """C11 Task ids are dense, ordered, never reused, visible in task names."""
 from asyncio_taskpool import SimpleTaskPool, TaskPool
-from engine.prog import Interp, parts_product, select
+from engine.prog import Interp, parts_product, refine, select
 from engine.spec import Family
 from engine.world import Excluded, World, unstarted
 
@@ -127,6 +127,6 @@ def families(tier):
         parts = parts_product(x1=range(5), x2=range(NOP))
     else:
         pre += ["x4 == %d" % NOP, "a4 == 0", "1 <= sizeA <= 3", "1 <= sizeB <= 2", "a2 <= 2", "a3 <= 2"]
-        parts = parts_product(named=(0, 1), x1=range(5), x2=range(NOP))
+        parts = refine(parts_product(named=(0, 1), x1=range(5), x2=range(NOP)), ["x2 == %d" % k for k in range(5)], "x3", range(NOP + 1))
     return [Family(name="ids", fn="tpl_ids", params=P, pre=pre, parts=parts,
                    twin_pre=["x1 == 1", "x2 == 4", "x3 == 8", "named == 0"], twin_args=[2, 2, 0, 1, 0, 4, 0, 8, 0, NOP, 0, 9])]
